@@ -107,8 +107,14 @@ class StorageTools:
         path = os.path.join(profile_dir, name)
         logger.debug("Writing %s" % path)
 
-        with open(path, 'w' if type(val) is str else 'wb') as attrFile:
+        # write a temporary file next to the target, then rename it into place, so that a crash
+        # at any instant leaves either the previous or the new contents (never a truncated file)
+        tmp_path = path + ".tmp"
+        with open(tmp_path, 'w' if type(val) is str else 'wb') as attrFile:
             attrFile.write(val)
+            attrFile.flush()
+            os.fsync(attrFile.fileno())
+        getattr(os, "replace", os.rename)(tmp_path, path)
 
     @staticmethod
     def readProfileData(profile_name, name, default=None):
